@@ -264,6 +264,12 @@ func (e *kvElection) verifyLeadershipAfterReconnect() {
 	// Give connection a moment to stabilize
 	time.Sleep(100 * time.Millisecond)
 
+	// Stopped or demoted in the meantime: nothing to verify, and no store operation
+	// must be issued after a stop.
+	if !e.isLeader.Load() {
+		return
+	}
+
 	// Verify connection is working
 	ctx, cancel := context.WithTimeout(context.Background(), 2*time.Second)
 	defer cancel()
@@ -279,6 +285,10 @@ func (e *kvElection) verifyLeadershipAfterReconnect() {
 			)...,
 		)
 		e.handleReconnectVerificationFailed(err)
+		return
+	}
+
+	if !e.isLeader.Load() {
 		return
 	}
 
